@@ -1,2 +1,680 @@
-// stub
-static int scenario_main(int argc, char **argv) { (void) argc; (void) argv; return 2; }
+// wb_pipeev_real.h: scenario mode of wb_pipeev.c -- real transports (tcp, ipc, inproc), raw
+// TCP / UNIX-socket peers, real schedules.  Each scenario prints a log; checks/c14.py
+// evaluates the property's clauses on it.  Nothing here decides pass/fail.
+//
+//   real    <tcp|ipc|inproc> <seed> <actions>          several sockets/dialers/listeners, random closes/rejects
+//   redial  <tcp|ipc> <seed> <min> <max> <rounds>      a raw listener counts a dialer's attempts (virtual clock)
+//   hostile <tcp|ipc> <seed> <rounds>                  a raw client misbehaves; a control client must connect
+#ifndef WB_PIPEEV_REAL_H
+#define WB_PIPEEV_REAL_H
+
+static uint64_t rng_s;
+static uint32_t
+rnd(void)
+{
+	rng_s = rng_s * 6364136223846793005ULL + 1442695040888963407ULL;
+	return (uint32_t) (rng_s >> 33);
+}
+static int
+rndn(int n)
+{
+	return n <= 0 ? 0 : (int) (rnd() % (uint32_t) n);
+}
+static uint64_t
+real_ms(void)
+{
+	struct timespec ts;
+	clock_gettime(CLOCK_MONOTONIC, &ts);
+	return (uint64_t) ts.tv_sec * 1000 + (uint64_t) ts.tv_nsec / 1000000;
+}
+static void
+msleep(int ms)
+{
+	struct timespec ts = { ms / 1000, (ms % 1000) * 1000000L };
+	nanosleep(&ts, NULL);
+}
+
+static void
+dump_log(void)
+{
+	pthread_mutex_lock(&ev_mtx);
+	for (int i = 0; i < nev; i++) {
+		evrec *e = &evlog[i];
+		switch (e->mark) {
+		case 0: printf("E %d s%d %u %d d%d l%d\n", i, e->sock, e->pid, e->ev, e->did, e->lid); break;
+		case 1: printf("C %d s%d\n", i, e->sock); break;
+		case 2: printf("M %d s%d %u\n", i, e->sock, e->pid); break;
+		case 3: printf("X %d s%d %u %d\n", i, e->sock, e->pid, e->ev); break;
+		case 4: printf("K %d s%d %u\n", i, e->sock, e->pid); break; // nng_pipe_close from the main thread
+		}
+	}
+	if (nev >= NLOG) printf("LOG-OVERFLOW\n");
+	pthread_mutex_unlock(&ev_mtx);
+}
+
+static const char *
+mk_url(const char *tr, int k, char *buf, size_t n)
+{
+	if (strcmp(tr, "tcp") == 0)
+		snprintf(buf, n, "tcp://127.0.0.1:0");
+	else if (strcmp(tr, "ipc") == 0)
+		snprintf(buf, n, "ipc:///tmp/nngv_c14_%d_%d.sock", (int) getpid(), k);
+	else
+		snprintf(buf, n, "inproc://nngv_c14_%d_%d", (int) getpid(), k);
+	return buf;
+}
+
+// the address a dialer must use for a started listener
+static void
+listener_addr(const char *tr, nng_listener l, const char *url, char *buf, size_t n)
+{
+	if (strcmp(tr, "tcp") == 0) {
+		int port = 0;
+		nng_listener_get_int(l, NNG_OPT_BOUND_PORT, &port);
+		snprintf(buf, n, "tcp://127.0.0.1:%d", port);
+	} else {
+		snprintf(buf, n, "%s", url);
+	}
+}
+
+// ---------------------------------------------------------------- scenario: real
+#define R_NSOCK 3
+#define R_NL 6
+#define R_ND 10
+typedef struct {
+	nng_listener l;
+	int          sock;
+	int          open;
+	char         addr[96];
+} r_lst;
+typedef struct {
+	nng_dialer d;
+	int        sock;
+	int        target; // listener index
+	int        open;
+} r_dial;
+
+static int
+live_pipes(uint32_t *ids, int *sk, int max)
+{
+	// pipes that had an event and no REM_POST yet (from the log)
+	int n = 0;
+	pthread_mutex_lock(&ev_mtx);
+	for (int i = 0; i < nev && n < max; i++) {
+		if (evlog[i].mark != 0 || evlog[i].ev != NNG_PIPE_EV_ADD_PRE) continue;
+		int gone = 0;
+		for (int j = i + 1; j < nev; j++)
+			if (evlog[j].mark == 0 && evlog[j].pid == evlog[i].pid && evlog[j].sock == evlog[i].sock && evlog[j].ev == NNG_PIPE_EV_REM_POST) gone = 1;
+		if (!gone) {
+			ids[n] = evlog[i].pid;
+			sk[n]  = evlog[i].sock;
+			n++;
+		}
+	}
+	pthread_mutex_unlock(&ev_mtx);
+	return n;
+}
+
+static int
+scenario_real(const char *tr, uint64_t seed, int nact)
+{
+	static r_lst  L[R_NL];
+	static r_dial D[R_ND];
+	int           nl = 0, nd = 0, urlk = 0;
+	char          url[96];
+	rng_s       = seed * 2654435761ULL + 12345;
+	cb_seed     = seed | 1;
+	cb_rej_pre  = 120 + rndn(150);
+	cb_rej_post = 60 + rndn(120);
+	int rmin    = (int[]){ 0, 1, 5, 20, 40 }[rndn(5)];
+	int rmax    = (int[]){ 0, 0, 30, 100, 10 }[rndn(5)];
+	printf("P transport=%s seed=%llu min=%d max=%d rej_pre=%d rej_post=%d\n", tr, (unsigned long long) seed, rmin, rmax, cb_rej_pre, cb_rej_post);
+	for (int s = 0; s < R_NSOCK; s++) {
+		if (nng_bus0_open(&socks[s]) != 0) return 3;
+		sock_open[s] = 1;
+		nng_socket_set_ms(socks[s], NNG_OPT_RECONNMINT, rmin);
+		nng_socket_set_ms(socks[s], NNG_OPT_RECONNMAXT, rmax);
+		for (int e = 1; e <= 3; e++) nng_pipe_notify(socks[s], (nng_pipe_ev) e, pipe_cb, (void *) (intptr_t) s);
+	}
+#define ADD_L(s)                                                                          \
+	do {                                                                              \
+		if (nl < R_NL && sock_open[s]) {                                          \
+			mk_url(tr, urlk++, url, sizeof(url));                             \
+			if (nng_listener_create(&L[nl].l, socks[s], url) == 0) {          \
+				if (nng_listener_start(L[nl].l, 0) == 0) {                \
+					L[nl].sock = s;                                   \
+					L[nl].open = 1;                                   \
+					listener_addr(tr, L[nl].l, url, L[nl].addr, sizeof(L[nl].addr)); \
+					printf("A listener l%d id=%d s%d %s\n", nl, nng_listener_id(L[nl].l), s, L[nl].addr); \
+					nl++;                                             \
+				} else {                                                  \
+					nng_listener_close(L[nl].l);                      \
+				}                                                         \
+			}                                                                 \
+		}                                                                         \
+	} while (0)
+#define ADD_D(s, t)                                                                       \
+	do {                                                                              \
+		if (nd < R_ND && sock_open[s] && (t) < nl && L[t].sock != (s)) {          \
+			if (nng_dialer_create(&D[nd].d, socks[s], L[t].addr) == 0) {      \
+				nng_dialer_start(D[nd].d, NNG_FLAG_NONBLOCK);             \
+				D[nd].sock   = s;                                         \
+				D[nd].target = t;                                         \
+				D[nd].open   = 1;                                         \
+				printf("A dialer d%d id=%d s%d -> l%d\n", nd, nng_dialer_id(D[nd].d), s, t); \
+				nd++;                                                     \
+			}                                                                 \
+		}                                                                         \
+	} while (0)
+	ADD_L(0);
+	ADD_L(0);
+	ADD_L(2);
+	ADD_D(1, 0);
+	ADD_D(1, 1);
+	ADD_D(1, 2);
+	ADD_D(2, 0);
+	for (int a = 0; a < nact; a++) {
+		int r = rndn(100);
+		if (r < 22) {
+			uint32_t ids[64];
+			int      sk[64];
+			int      n = live_pipes(ids, sk, 64);
+			if (n > 0) {
+				int      k = rndn(n);
+				nng_pipe p;
+				p.id = ids[k];
+				log_rec(sk[k], ids[k], 0, 0, 0, 4);
+				nng_pipe_close(p);
+			}
+		} else if (r < 45) {
+			int      s = rndn(R_NSOCK);
+			nng_msg *m;
+			if (sock_open[s] && nng_msg_alloc(&m, 4) == 0) {
+				if (nng_sendmsg(socks[s], m, NNG_FLAG_NONBLOCK) != 0) nng_msg_free(m);
+			}
+		} else if (r < 52) {
+			int k = rndn(nd > 0 ? nd : 1);
+			if (nd > 0 && D[k].open) {
+				printf("A dclose d%d\n", k);
+				nng_dialer_close(D[k].d);
+				D[k].open = 0;
+			}
+		} else if (r < 57) {
+			int k = rndn(nl > 0 ? nl : 1);
+			if (nl > 0 && L[k].open) {
+				printf("A lclose l%d\n", k);
+				nng_listener_close(L[k].l);
+				L[k].open = 0;
+			}
+		} else if (r < 63) {
+			int s = rndn(R_NSOCK), t = rndn(nl > 0 ? nl : 1);
+			if (nl > 0 && L[t].open) ADD_D(s, t);
+		} else if (r < 66) {
+			int s = rndn(R_NSOCK);
+			ADD_L(s);
+		} else if (r < 85) {
+			nng_verif_clock_advance((uint64_t) rndn(120));
+		} else {
+			msleep(rndn(8));
+		}
+		// drain whatever arrived
+		for (int s = 0; s < R_NSOCK; s++) {
+			nng_msg *m;
+			while (sock_open[s] && nng_recvmsg(socks[s], &m, NNG_FLAG_NONBLOCK) == 0) {
+				log_rec(s, (uint32_t) nng_pipe_id(nng_msg_get_pipe(m)), 0, 0, 0, 2);
+				nng_msg_free(m);
+			}
+		}
+		if (rndn(3) == 0) msleep(rndn(4));
+	}
+	// settle: no more rejections; every open dialer whose listener is open must get a pipe
+	pthread_mutex_lock(&ev_mtx);
+	cb_rej_pre = cb_rej_post = 0;
+	pthread_mutex_unlock(&ev_mtx);
+	uint64_t t0 = real_ms();
+	int      all = 0;
+	while (!all && real_ms() - t0 < 6000) {
+		all = 1;
+		for (int k = 0; k < nd; k++) {
+			nni_dialer *d;
+			if (!D[k].open || !L[D[k].target].open) continue;
+			if (nni_dialer_find(&d, (uint32_t) nng_dialer_id(D[k].d)) != 0) continue;
+			if (d->d_pipe == NULL) all = 0;
+			nni_dialer_rele(d);
+		}
+		if (!all) {
+			nng_verif_clock_advance(150);
+			msleep(5);
+		}
+	}
+	for (int k = 0; k < nd; k++) {
+		nni_dialer *d;
+		int         has = -1;
+		if (D[k].open && nni_dialer_find(&d, (uint32_t) nng_dialer_id(D[k].d)) == 0) {
+			has = d->d_pipe != NULL;
+			nni_dialer_rele(d);
+		}
+		printf("L d%d id=%d open=%d target_open=%d pipe=%d waited=%llu\n", k, nng_dialer_id(D[k].d), D[k].open, L[D[k].target].open, has,
+		    (unsigned long long) (real_ms() - t0));
+	}
+	// close the sockets in a random order
+	int order[R_NSOCK] = { 0, 1, 2 };
+	for (int i = R_NSOCK - 1; i > 0; i--) {
+		int j = rndn(i + 1), t = order[i];
+		order[i] = order[j];
+		order[j] = t;
+	}
+	for (int i = 0; i < R_NSOCK; i++) {
+		int s = order[i];
+		nng_socket_close(socks[s]);
+		log_rec(s, 0, 0, 0, 0, 1);
+		sock_open[s] = 0;
+		if (rndn(2)) msleep(rndn(5));
+	}
+	msleep(30);
+	pv_quiesce();
+	dump_log();
+	printf("real-done\n");
+	return 0;
+}
+
+// ---------------------------------------------------------------- raw peers
+typedef struct {
+	int  fd;
+	int  is_tcp;
+	char url[108];
+	char path[108];
+} rawl;
+
+static int
+rawl_open(rawl *r, const char *tr, int k)
+{
+	memset(r, 0, sizeof(*r));
+	r->is_tcp = strcmp(tr, "tcp") == 0;
+	if (r->is_tcp) {
+		struct sockaddr_in sa;
+		socklen_t          sl = sizeof(sa);
+		int                one = 1;
+		r->fd                  = socket(AF_INET, SOCK_STREAM, 0);
+		setsockopt(r->fd, SOL_SOCKET, SO_REUSEADDR, &one, sizeof(one));
+		memset(&sa, 0, sizeof(sa));
+		sa.sin_family      = AF_INET;
+		sa.sin_addr.s_addr = htonl(INADDR_LOOPBACK);
+		if (bind(r->fd, (struct sockaddr *) &sa, sizeof(sa)) != 0 || listen(r->fd, 64) != 0) return -1;
+		getsockname(r->fd, (struct sockaddr *) &sa, &sl);
+		snprintf(r->url, sizeof(r->url), "tcp://127.0.0.1:%d", ntohs(sa.sin_port));
+	} else {
+		struct sockaddr_un su;
+		r->fd = socket(AF_UNIX, SOCK_STREAM, 0);
+		memset(&su, 0, sizeof(su));
+		su.sun_family = AF_UNIX;
+		snprintf(r->path, sizeof(r->path), "/tmp/nngv_c14_raw_%d_%d.sock", (int) getpid(), k);
+		snprintf(su.sun_path, sizeof(su.sun_path), "%s", r->path);
+		unlink(r->path);
+		if (bind(r->fd, (struct sockaddr *) &su, sizeof(su)) != 0 || listen(r->fd, 64) != 0) return -1;
+		snprintf(r->url, sizeof(r->url), "ipc://%s", r->path);
+	}
+	return 0;
+}
+static void
+rawl_close(rawl *r)
+{
+	close(r->fd);
+	if (!r->is_tcp) unlink(r->path);
+}
+// wait up to ms (real) for a connection; -1 if none
+static int
+rawl_accept(rawl *r, int ms)
+{
+	struct pollfd pf = { .fd = r->fd, .events = POLLIN };
+	if (poll(&pf, 1, ms) != 1) return -1;
+	return accept(r->fd, NULL, NULL);
+}
+static void
+sp_header(uint8_t *h, uint16_t proto)
+{
+	h[0] = 0;
+	h[1] = 'S';
+	h[2] = 'P';
+	h[3] = 0;
+	h[4] = (uint8_t) (proto >> 8);
+	h[5] = (uint8_t) proto;
+	h[6] = h[7] = 0;
+}
+static void
+hard_close(int fd)
+{
+	struct linger lg = { 1, 0 };
+	setsockopt(fd, SOL_SOCKET, SO_LINGER, &lg, sizeof(lg));
+	close(fd);
+}
+static int
+read_n(int fd, uint8_t *b, int n, int ms)
+{
+	int got = 0;
+	while (got < n) {
+		struct pollfd pf = { .fd = fd, .events = POLLIN };
+		if (poll(&pf, 1, ms) != 1) break;
+		int r = (int) read(fd, b + got, (size_t) (n - got));
+		if (r <= 0) break;
+		got += r;
+	}
+	return got;
+}
+// connect a raw client to an nng listener's address ("tcp://127.0.0.1:port" or "ipc://path")
+static int
+raw_connect(const char *addr)
+{
+	int fd;
+	if (strncmp(addr, "tcp://", 6) == 0) {
+		struct sockaddr_in sa;
+		memset(&sa, 0, sizeof(sa));
+		sa.sin_family      = AF_INET;
+		sa.sin_addr.s_addr = htonl(INADDR_LOOPBACK);
+		sa.sin_port        = htons((uint16_t) atoi(strrchr(addr, ':') + 1));
+		fd                 = socket(AF_INET, SOCK_STREAM, 0);
+		if (connect(fd, (struct sockaddr *) &sa, sizeof(sa)) != 0) {
+			close(fd);
+			return -1;
+		}
+	} else {
+		struct sockaddr_un su;
+		memset(&su, 0, sizeof(su));
+		su.sun_family = AF_UNIX;
+		snprintf(su.sun_path, sizeof(su.sun_path), "%s", addr + 6);
+		fd = socket(AF_UNIX, SOCK_STREAM, 0);
+		if (connect(fd, (struct sockaddr *) &su, sizeof(su)) != 0) {
+			close(fd);
+			return -1;
+		}
+	}
+	return fd;
+}
+
+// ---------------------------------------------------------------- scenario: redial
+static int
+scenario_redial(const char *tr, uint64_t seed, int rmin, int rmax, int rounds)
+{
+	rawl        R;
+	nng_dialer  dl;
+	nni_dialer *d;
+	int         bound = rmin > rmax ? rmin : rmax;
+	rng_s             = seed * 2654435761ULL + 99;
+	if (rawl_open(&R, tr, 0) != 0) return 3;
+	if (nng_bus0_open(&socks[0]) != 0) return 3;
+	sock_open[0] = 1;
+	for (int e = 1; e <= 3; e++) nng_pipe_notify(socks[0], (nng_pipe_ev) e, pipe_cb, (void *) (intptr_t) 0);
+	if (nng_dialer_create(&dl, socks[0], R.url) != 0) return 3;
+	// half of the runs set the options on the socket before the dialer exists -- same effect expected
+	nng_dialer_set_ms(dl, NNG_OPT_RECONNMINT, rmin);
+	nng_dialer_set_ms(dl, NNG_OPT_RECONNMAXT, rmax);
+	nng_dialer_start(dl, NNG_FLAG_NONBLOCK);
+	if (nni_dialer_find(&d, (uint32_t) nng_dialer_id(dl)) != 0) return 3;
+	printf("P transport=%s seed=%llu min=%d max=%d bound=%d\n", tr, (unsigned long long) seed, rmin, rmax, bound);
+	int att = 0;
+	for (int k = 0; k < rounds; k++) {
+		uint64_t w0 = real_ms();
+		int      fd = rawl_accept(&R, 4000);
+		uint64_t wr = real_ms() - w0;
+		if (fd < 0) {
+			printf("R %d arrived=0 wait_real=%llu att=%d tmo=%d conn=%d pipe=%d\n", k, (unsigned long long) wr, att, d->d_tmo_aio.a_sleep ? 1 : 0,
+			    -1, d->d_pipe != NULL);
+			break;
+		}
+		att++;
+		int     mode = rndn(6);
+		uint8_t h[8], in[8];
+		int     started = 0;
+		switch (mode) {
+		case 0: hard_close(fd); break;                      // reset at once
+		case 1: close(fd); break;                           // orderly close before any byte
+		case 2:                                             // garbage instead of the SP header
+			(void) !write(fd, "GET / HT", 8);
+			read_n(fd, in, 8, 200);
+			close(fd);
+			break;
+		case 3:                                             // short header
+			(void) !write(fd, "\0SP", 3);
+			msleep(2);
+			hard_close(fd);
+			break;
+		case 4:                                             // valid header of another protocol (pair0): pipe_start refuses
+			sp_header(h, 0x10);
+			(void) !write(fd, h, 8);
+			read_n(fd, in, 8, 500);
+			msleep(5);
+			close(fd);
+			started = 1;
+			break;
+		default:                                            // good peer that goes away a little later
+			sp_header(h, 0x70);
+			(void) !write(fd, h, 8);
+			read_n(fd, in, 8, 500);
+			msleep(3 + rndn(10));
+			if (rndn(2)) hard_close(fd); else close(fd);
+			started = 2;
+			break;
+		}
+		// wait (real time) until the dialer has noticed and armed its timer; the timer may already
+		// have fired when the delay drawn was tiny -- then the next attempt is simply there
+		uint64_t a0 = real_ms();
+		int      armed = 0;
+		long long rem = -1;
+		int      cur = -1;
+		while (real_ms() - a0 < 3000) {
+			if (d->d_tmo_aio.a_sleep) {
+				nni_time now = nni_clock(), ex = d->d_tmo_aio.a_expire;
+				armed = 1;
+				rem   = ex > now ? (long long) (ex - now) : 0;
+				cur   = (int) d->d_currtime;
+				break;
+			}
+			struct pollfd pf = { .fd = R.fd, .events = POLLIN };
+			if (poll(&pf, 1, 0) == 1) break; // already redialled
+			msleep(1);
+		}
+		printf("R %d arrived=1 wait_real=%llu mode=%d started=%d armed=%d cur=%d rem=%lld att=%d\n", k, (unsigned long long) wr, mode, started, armed, cur, rem, att);
+		// everything the property allows the delay to be has now elapsed on the virtual clock
+		if (bound > 0) nng_verif_clock_advance((uint64_t) bound);
+	}
+	nni_dialer_rele(d);
+	nng_socket_close(socks[0]);
+	log_rec(0, 0, 0, 0, 0, 1);
+	sock_open[0] = 0;
+	rawl_close(&R);
+	msleep(20);
+	pv_quiesce();
+	dump_log();
+	printf("redial-done\n");
+	return 0;
+}
+
+// ---------------------------------------------------------------- scenario: hostile
+static nng_aio *ctl_aio;
+static int
+control_connect(const char *addr, int *rvp, uint64_t *msp)
+{
+	// a well-behaved client: must get connected whatever the hostile peer did before
+	nng_socket c;
+	nng_dialer cd;
+	int        rv;
+	uint64_t   t0 = real_ms();
+	if ((rv = nng_bus0_open(&c)) != 0) return rv;
+	if (ctl_aio == NULL) nng_aio_alloc(&ctl_aio, NULL, NULL);
+	nng_aio_set_timeout(ctl_aio, 8000);
+	rv = nng_dialer_create(&cd, c, addr);
+	if (rv == 0) {
+		nng_dialer_start_aio(cd, NNG_FLAG_NONBLOCK, ctl_aio);
+		nng_aio_wait(ctl_aio);
+		rv = nng_aio_result(ctl_aio);
+	}
+	*rvp = rv;
+	*msp = real_ms() - t0;
+	// leave it connected a moment so that the listener side runs its callbacks
+	int seen = 0;
+	for (int i = 0; i < 2000 && !seen && rv == 0; i++) {
+		pthread_mutex_lock(&ev_mtx);
+		for (int j = ev_shown; j < nev; j++)
+			if (evlog[j].mark == 0 && evlog[j].sock == 0 && evlog[j].ev == NNG_PIPE_EV_ADD_POST) seen = 1;
+		pthread_mutex_unlock(&ev_mtx);
+		if (!seen) msleep(1);
+	}
+	pthread_mutex_lock(&ev_mtx);
+	ev_shown = nev;
+	pthread_mutex_unlock(&ev_mtx);
+	nng_socket_close(c);
+	return seen;
+}
+
+static int
+scenario_hostile(const char *tr, uint64_t seed, int rounds)
+{
+	nng_listener l;
+	char         url[96], addr[96];
+	rng_s = seed * 2654435761ULL + 7;
+	if (nng_bus0_open(&socks[0]) != 0) return 3;
+	sock_open[0] = 1;
+	for (int e = 1; e <= 3; e++) nng_pipe_notify(socks[0], (nng_pipe_ev) e, pipe_cb, (void *) (intptr_t) 0);
+	mk_url(tr, 0, url, sizeof(url));
+	if (nng_listener_create(&l, socks[0], url) != 0 || nng_listener_start(l, 0) != 0) return 3;
+	listener_addr(tr, l, url, addr, sizeof(addr));
+	printf("P transport=%s seed=%llu addr=%s\n", tr, (unsigned long long) seed, addr);
+	int held[64], nheld = 0;
+	for (int k = 0; k < rounds; k++) {
+		int     kind = rndn(7);
+		uint8_t h[8], in[8];
+		int     fd, n = 1;
+		switch (kind) {
+		case 0: // reset before the transport gets to accept()
+			n = 1 + rndn(20);
+			for (int i = 0; i < n; i++) {
+				if ((fd = raw_connect(addr)) >= 0) hard_close(fd);
+			}
+			break;
+		case 1: // garbage handshake
+			if ((fd = raw_connect(addr)) >= 0) {
+				(void) !write(fd, "\xff\xfe\xfd\xfc\xfb\xfa\xf9\xf8", 8);
+				read_n(fd, in, 8, 300);
+				close(fd);
+			}
+			break;
+		case 2: // half a header, then reset
+			if ((fd = raw_connect(addr)) >= 0) {
+				(void) !write(fd, "\0SP\0", 4);
+				msleep(rndn(5));
+				hard_close(fd);
+			}
+			break;
+		case 3: // header of another protocol
+			if ((fd = raw_connect(addr)) >= 0) {
+				sp_header(h, 0x30);
+				(void) !write(fd, h, 8);
+				read_n(fd, in, 8, 300);
+				msleep(2);
+				close(fd);
+			}
+			break;
+		case 4: // says nothing and stays (until the negotiation timeout on the virtual clock)
+			if (nheld < 64 && (fd = raw_connect(addr)) >= 0) held[nheld++] = fd;
+			break;
+		case 5: // good handshake, then a reset in the middle of things
+			if ((fd = raw_connect(addr)) >= 0) {
+				sp_header(h, 0x70);
+				(void) !write(fd, h, 8);
+				read_n(fd, in, 8, 300);
+				hard_close(fd);
+			}
+			break;
+		default: // a burst of orderly closes
+			n = 1 + rndn(30);
+			for (int i = 0; i < n; i++) {
+				if ((fd = raw_connect(addr)) >= 0) close(fd);
+			}
+			break;
+		}
+		int      crv  = -1;
+		uint64_t cms  = 0;
+		int      seen = control_connect(addr, &crv, &cms);
+		printf("H %d kind=%d n=%d ctl_rv=%d ctl_ms=%llu s_addpost=%d held=%d\n", k, kind, n, crv, (unsigned long long) cms, seen, nheld);
+		if (kind == 4 && rndn(2)) {
+			// let the negotiation of the silent ones time out (10 s on the virtual clock)
+			nng_verif_clock_advance(10050);
+			msleep(20);
+			for (int i = 0; i < nheld; i++) close(held[i]);
+			nheld = 0;
+			seen  = control_connect(addr, &crv, &cms);
+			printf("H %d kind=9 n=0 ctl_rv=%d ctl_ms=%llu s_addpost=%d held=%d\n", k, crv, (unsigned long long) cms, seen, nheld);
+		}
+	}
+	for (int i = 0; i < nheld; i++) close(held[i]);
+	nng_socket_close(socks[0]);
+	log_rec(0, 0, 0, 0, 0, 1);
+	sock_open[0] = 0;
+	if (ctl_aio != NULL) {
+		nng_aio_free(ctl_aio);
+		ctl_aio = NULL;
+	}
+	msleep(20);
+	pv_quiesce();
+	dump_log();
+	printf("hostile-done\n");
+	return 0;
+}
+
+// ---------------------------------------------------------------- scenario: waitleak
+// a listener closed while a connection that has finished the SP handshake is still waiting to be
+// matched with an accept (the listener is in its 100 ms cool-down after a garbage handshake)
+static int
+scenario_waitleak(const char *tr)
+{
+	nng_listener l;
+	char         url[96], addr[96];
+	uint8_t      h[8], in[8];
+	int          fd, good;
+	if (nng_bus0_open(&socks[0]) != 0) return 3;
+	sock_open[0] = 1;
+	for (int e = 1; e <= 3; e++) nng_pipe_notify(socks[0], (nng_pipe_ev) e, pipe_cb, (void *) (intptr_t) 0);
+	mk_url(tr, 0, url, sizeof(url));
+	if (nng_listener_create(&l, socks[0], url) != 0 || nng_listener_start(l, 0) != 0) return 3;
+	listener_addr(tr, l, url, addr, sizeof(addr));
+	if ((fd = raw_connect(addr)) < 0) return 3;
+	(void) !write(fd, "\xff\xfe\xfd\xfc\xfb\xfa\xf9\xf8", 8); // -> NNG_EPROTO -> cool-down
+	read_n(fd, in, 8, 300);
+	close(fd);
+	msleep(10);
+	if ((good = raw_connect(addr)) < 0) return 3;
+	sp_header(h, 0x70);
+	(void) !write(good, h, 8);
+	int n = read_n(good, in, 8, 300);
+	msleep(10); // negotiated; the listener's accept is not pending: the pipe waits
+	nni_listener *nl;
+	int           cooling = 0;
+	if (nni_listener_find(&nl, (uint32_t) nng_listener_id(l)) == 0) {
+		cooling = nl->l_tmo_aio.a_sleep ? 1 : 0;
+		nni_listener_rele(nl);
+	}
+	printf("W handshake_bytes=%d cooling=%d\n", n, cooling);
+	nng_listener_close(l);
+	msleep(10);
+	close(good);
+	nng_socket_close(socks[0]);
+	sock_open[0] = 0;
+	msleep(20);
+	pv_quiesce();
+	dump_log();
+	printf("waitleak-done\n");
+	return 0;
+}
+
+static int
+scenario_main(int argc, char **argv)
+{
+	if (argc >= 3 && strcmp(argv[1], "waitleak") == 0) return scenario_waitleak(argv[2]);
+	if (argc >= 5 && strcmp(argv[1], "real") == 0) return scenario_real(argv[2], strtoull(argv[3], NULL, 10), atoi(argv[4]));
+	if (argc >= 7 && strcmp(argv[1], "redial") == 0)
+		return scenario_redial(argv[2], strtoull(argv[3], NULL, 10), atoi(argv[4]), atoi(argv[5]), atoi(argv[6]));
+	if (argc >= 5 && strcmp(argv[1], "hostile") == 0) return scenario_hostile(argv[2], strtoull(argv[3], NULL, 10), atoi(argv[4]));
+	fprintf(stderr, "usage: wb_pipeev [real <tcp|ipc|inproc> <seed> <actions> | redial <tcp|ipc> <seed> <min> <max> <rounds> | hostile <tcp|ipc> <seed> <rounds>]\n");
+	return 2;
+}
+#endif
